@@ -45,7 +45,7 @@ def gen_case(rng, ctx):
         scls, sch = gen.scheme(rng, "S1 S1 S11 S3")
         return {"ds": ds, "scheme": sch, "dcls": "D11-mixed", "scls": scls, "bound": rng.choice([2, 3, 3]),
                 "aux": rng.choice(AUX), "libseed": rng.randrange(10 ** 6), "other": rng.choice(OTHERS)}
-    cls, ds = gen.dataset(rng, classes="D11 D11 D11 D11 D9 D9 D7 D10 D3 D4 D8 D2 D2 D2 D15 D15 D13", nmax=nmax, mmax=6)
+    cls, ds = gen.dataset(rng, classes="D11 D11 D11 D11 D9 D9 D7 D10 D3 D4 D8 D2 D2 D2 D15 D15 D13 D20 D20 D20", nmax=nmax, mmax=6)
     ds = libx.normalise_raw(ds)
     scls, sch = gen.scheme(rng, "S1 S1 S2 S3 S3 S3 S6 S9 S11 S11")
     return {"ds": ds, "scheme": sch, "dcls": cls, "scls": scls, "bound": rng.choice([0, 2, 2, 3, 80]),
@@ -121,6 +121,7 @@ def check_case(case, ctx):
         st, cons = call(lambda: mk().compute_consensus_rankings(dataset, scheme, True))
         ilps = algos.ilp_count() - before
         ctx.count("parcons_runs")
+        ctx.unit()
         if st == "exc":
             if isinstance(cons, libx.DOCUMENTED_REFUSALS) and not ref.is_complete(ds):
                 ctx.count("parcons_refused")
